@@ -284,7 +284,7 @@ where
                     Err(MsgPackReadError::Incomplete)
                 } else {
                     let sig = input.get_u8();
-                    let sign = if sig == 0 { Sign::Minus } else { Sign::NoSign };
+                    let sign = if sig == 0 { Sign::Minus } else { Sign::Plus };
                     let blob = read_blob(input, len - 1)?;
                     Ok(Either::Left(BigInt::from_bytes_be(sign, blob.as_slice())))
                 }
